@@ -7,6 +7,7 @@ import (
 
 	"github.com/tjfoc/gmsm/gmtls"
 	"github.com/tjfoc/gmsm/sm2"
+	gx509 "github.com/tjfoc/gmsm/x509"
 
 	"verif/mc/harness"
 	"verif/mc/ref/gmref"
@@ -140,6 +141,19 @@ func serverCases() []refCase {
 		}},
 		{name: "control: certificate list [signing, encryption, attacker's self-signed certificate] with the genuine keys", conformant: true, ident: func(id *gmref.Identity) {
 			id.Certs = append(id.Certs, pk.Attacker.Certificate[0])
+		}},
+		{name: "control: certificate list [signing, encryption, certificate of an UNTRUSTED CA] with the genuine keys", conformant: true, ident: func(id *gmref.Identity) {
+			id.Certs = append(id.Certs, pk.CA2.Raw)
+		}},
+		{name: "certificate list [signing, encryption, certificate of an untrusted CA], ServerKeyExchange signed with an unrelated key", ident: func(id *gmref.Identity) {
+			id.Certs = append(id.Certs, pk.CA2.Raw)
+			id.SignKey = pk.OtherKey.D
+		}},
+		{name: "both certificates from an untrusted CA with their keys", ident: func(id *gmref.Identity) {
+			id.Certs[0], id.Certs[1] = pk.SignUntrusted.Certificate[0], pk.EncUntrusted.Certificate[0]
+		}},
+		{name: "both certificates from an untrusted CA with their keys, CA certificate appended", ident: func(id *gmref.Identity) {
+			id.Certs = [][]byte{pk.SignUntrusted.Certificate[0], pk.EncUntrusted.Certificate[0], pk.CA2.Raw}
 		}},
 		{name: "only the signing certificate", ident: func(id *gmref.Identity) { id.Certs = id.Certs[:1] }},
 		{name: "the signing certificate twice", ident: func(id *gmref.Identity) { id.Certs[1] = id.Certs[0]; id.EncKey = id.SignKey }},
@@ -314,6 +328,67 @@ func refServerUnit(suite uint16) harness.Unit {
 			script := &gmref.Script{Data: tlsk.PingPong(false), Mutate: rc.mutate}
 			o := tlsk.RunLibVsRef(cc, true, tlsk.LibApp(true), id, byte(40+i), func(q *gmref.Peer) { q.Suites = []uint16{suite} }, script, nil)
 			judgeRefCase(c, fmt.Sprintf("suite=%04x scripted server: %s", suite, rc.name), "scripted-server:"+rc.name, o, rc.conformant, rc.malformedOnly)
+		}
+	}}
+}
+
+// runServerCase plays one scripted-server case against a library client with the given configuration.
+func runServerCase(suite uint16, i int, rc refCase, cc *gmtls.Config) *tlsk.RefOutcome {
+	id := tlsk.ServerIdentity()
+	id.Certs = append([][]byte{}, id.Certs...)
+	if rc.ident != nil {
+		rc.ident(&id)
+	}
+	script := &gmref.Script{Data: tlsk.PingPong(false), Mutate: rc.mutate}
+	return tlsk.RunLibVsRef(cc, true, tlsk.LibApp(true), id, byte(40+i), func(q *gmref.Peer) { q.Suites = []uint16{suite} }, script, nil)
+}
+
+func freshClient(suite uint16) *gmtls.Config {
+	p := tlsk.Get()
+	pool := gx509.NewCertPool()
+	pool.AddCert(p.CA)
+	return &gmtls.Config{GMSupport: &gmtls.GMSupport{}, RootCAs: pool, ServerName: tlsk.ServerName, Time: tlsk.FixedTime, Rand: wire.NewRand(33), CipherSuites: []uint16{suite}}
+}
+
+// refServerPairUnit: state carried from one connection to the next. For every ordered pair (A, B)
+// of scripted-server cases, A then B run against ONE client Config (own root pool); B's verdict must
+// be what B gets from a fresh Config: nothing a previous peer did may change whom the client trusts.
+func refServerPairUnit(suite uint16, part, parts int) harness.Unit {
+	return harness.Unit{Name: fmt.Sprintf("scripted-server-pairs/%04x/part%d", suite, part), Run: func(c *harness.Ctx) {
+		cases := serverCases()
+		alone := make([]bool, len(cases))
+		for j, rc := range cases {
+			alone[j] = runServerCase(suite, j, rc, freshClient(suite)).Lib.Complete
+		}
+		for i, a := range cases {
+			if i%parts != part {
+				continue
+			}
+			if len(a.name) > 8 && a.name[:8] == "Finished" && i%6 != 0 {
+				continue // the 18 Finished variants are one class as a first connection
+			}
+			for j, b := range cases {
+				cc := freshClient(suite)
+				runServerCase(suite, i, a, cc)
+				o := runServerCase(suite, j, b, cc)
+				tag := fmt.Sprintf("suite=%04x one client Config, first [%s] then [%s]", suite, a.name, b.name)
+				c.Add("evaluations", 1)
+				c.DistinctS("nontrivial", tag)
+				if c.WantSample() {
+					c.Sample(tag)
+				}
+				if o.Lib.Panic != nil {
+					c.Violate("panic:scripted-server-pair:"+site(o.Lib.Stack), fmt.Sprintf("[%s] client panicked: %v\n%s", tag, o.Lib.Panic, clip(o.Lib.Stack, 1200)), nil, tag)
+					continue
+				}
+				if o.Lib.Complete != alone[j] {
+					what := "accepts"
+					if alone[j] {
+						what = "refuses"
+					}
+					c.Violate(fmt.Sprintf("history-dependent:%s:%s:after:%s", what, b.name, a.name), fmt.Sprintf("[%s] the client %s the second peer, but with a fresh configuration the same peer gets complete=%v: %s", tag, what, alone[j], o.Describe()), nil, tag)
+				}
+			}
 		}
 	}}
 }
